@@ -98,7 +98,7 @@ RD_TEXT = {3: "coefficients are not the minimum-norm least-squares solution", 4:
            8: "non-finite coefficients / residuals or wrong shapes"}
 
 
-def run_rankdef(run, prop, binp, rng, n, codes):
+def run_rankdef(run, prop, binp, rng, n, codes, ctors=None, S=None, skip_dependency_defect=False):
     """exactly rank-deficient basis matrices with a user threshold (truncation active): the minimum-norm
     minimiser and its residuals are expected, all values finite"""
     workdir = os.path.join(COQ, "run", prop)
@@ -106,7 +106,8 @@ def run_rankdef(run, prop, binp, rng, n, codes):
     for i in range(n):
         fam = list(RANKDEF)[i % len(RANKDEF)]
         c = gen_problem(rng, family=fam, quant=(8 if i % 3 else None), eps=rng.choice([1e-6, -1e-6, 1e-5]),
-                        builder_made=(i % 4 == 1 and fam != "dup2"), weights=rng.choice(["none", "pos", "unit"]))
+                        builder_made=(i % 4 == 1 and fam != "dup2"), weights=rng.choice(["none", "pos", "unit"]),
+                        **({"ctor": ctors[i % len(ctors)], "S": S[i % len(S)]} if ctors else {}))
         m = c["meta"]
         lo, hi = m["range"]
         a = [hx(v, c["scalar"]) for v in distinct_params(rng, m["P"], lo, hi)]
@@ -115,7 +116,7 @@ def run_rankdef(run, prop, binp, rng, n, codes):
         rcases.append(c)
     # minimised / recorded past disagreements run first (corpus)
     cp = os.path.join(ROOT, "corpus", "rankdef.json")
-    if os.path.exists(cp):
+    if os.path.exists(cp) and not skip_dependency_defect:
         rcases = json.load(open(cp)) + rcases
     rres = run_harness(binp, "scenario", rcases, workdir, timeout_ms=20000, tag="rd")
     rterms, ridx = [], []
@@ -137,6 +138,11 @@ def run_rankdef(run, prop, binp, rng, n, codes):
         if code in codes and code in RD_TEXT:
             # is the decomposition nalgebra handed back a decomposition of the weighted basis matrix at all?
             bad_svd = nalgebra_defect(c, r["steps"][k + 1]["v"], r["steps"][k + 2]["v"])
+            if bad_svd and skip_dependency_defect:
+                # the decomposition nalgebra returned is wrong for ALL columns alike (known finding of C01): nothing about how the
+                # columns relate to each other follows from this state
+                rhist["dependency_defect_not_judged"] = rhist.get("dependency_defect_not_judged", 0) + 1
+                continue
             run.violation("rank-deficient state #%d: %s%s" % (k, RD_TEXT[code], " (the SVD factors returned by nalgebra do not reconstruct the matrix)" if bad_svd else ""),
                           {"case": c, "step": k, "observe": r["steps"][k]["v"], "tables": r["steps"][k + 1]["v"], "svd": r["steps"][k + 2]["v"],
                            "coq_term": t, "svd_is_a_decomposition": not bad_svd},
